@@ -592,7 +592,17 @@ func init() {
 	})
 }
 
+// runC07: most cases run alone; some run as 2-3 concurrent sessions of the
+// same case shape in one process (package-level state in the code under test).
 func runC07(cs *vrt.Case) {
+	if cs.Idx%8 == 7 {
+		cs.Twins(2, func(sub *vrt.Case, _ *vrt.Rng) { runC07One(sub) })
+		return
+	}
+	runC07One(cs)
+}
+
+func runC07One(cs *vrt.Case) {
 	r := cs.Rng
 	i := cs.Idx
 	chunk := i % c07Chunks
